@@ -159,6 +159,30 @@ const EDGE_TEXTS: &[&str] = &[
     "make",
     "\"",
     "é",
+    // numbers at the edges of the number formatter, printed directly, nested and interpolated
+    "shout(minus 0)",
+    "shout(0 times minus 1)",
+    "shout((minus 0.4).round())",
+    "shout(minus 4 mod 2)",
+    "shout(1152921504606846976)",
+    "shout(9007199254740993)",
+    "shout(2 times 4611686018427387904)",
+    "shout(123456789012345678901234567890)",
+    "shout(0.1 add 0.2)",
+    "shout(1 divide 3)",
+    "shout(100 divide 3.0)",
+    "shout(5.0)",
+    "shout(0.000001 divide 1000000)",
+    "shout([minus 0, 1152921504606846976, 0.5])",
+    "make x get 0 times minus 1\nshout(\"v={x}\")\nshout(to_string(x))\nshout(x add \"\")",
+    "make big get 1152921504606846976\nshout(\"v={big}\")\nshout(to_string(big))",
+    // child processes: a child that never reads a standard input larger than a pipe buffer, one
+    // that exits at once, one that reads everything, output on both streams, a non-zero status
+    "make t get \"0123456789abcdef\"\nmake i get 0\njasi (i small pass 14) start\nt get t add t\ni get i add 1\nend\nshout(t.len())\nmake c get command(\"true\")\nc.stdin_text(t)\nmake r get c.run()\nshout(r.success())\nshout(r.exit_code())\nshout(\"done\")",
+    "make t get \"0123456789abcdef\"\nmake i get 0\njasi (i small pass 14) start\nt get t add t\ni get i add 1\nend\nmake c get command(\"sh\")\nc.arg(\"-c\")\nc.arg(\"exit 3\")\nc.stdin_text(t)\nmake r get c.run()\nshout(r.exit_code())\nshout(\"done\")",
+    "make t get \"0123456789abcdef\"\nmake i get 0\njasi (i small pass 13) start\nt get t add t\ni get i add 1\nend\nmake c get command(\"wc\")\nc.arg(\"-c\")\nc.stdin_text(t)\nc.stdout_capture()\nmake r get c.run()\nshout(r.stdout().trim())\nshout(\"done\")",
+    "make c get command(\"sh\")\nc.arg(\"-c\")\nc.arg(\"echo out; echo err 1>&2; exit 7\")\nc.stdout_capture()\nc.stderr_capture()\nmake r get c.run()\nshout(r.stdout())\nshout(r.stderr())\nshout(r.exit_code())\nshout(r.success())",
+    "make c get command(\"/nonexistent/program\")\nmake r get c.run()\nshout(\"not reached\")",
 ];
 
 fn stage_cli(ctx: &mut Ctx) {
@@ -175,6 +199,19 @@ fn stage_cli(ctx: &mut Ctx) {
         if edge.is_some() {
             ctx.out.tag("edge-text");
         }
+        // two in five generated texts use CRLF or a lone CR as their line break (the entry points
+        // read bytes; none of them may rewrite the text before the lexer sees it)
+        let src = match (edge.is_some(), idx % 5) {
+            (false, 2) => {
+                ctx.out.tag("line-breaks.crlf");
+                src.replace('\n', "\r\n")
+            }
+            (false, 3) => {
+                ctx.out.tag("line-breaks.cr");
+                src.replace('\n', "\r")
+            }
+            _ => src,
+        };
         // every fourth text also reaches standard input in bursts, cut anywhere (inside a
         // multi-byte character too)
         let mut cuts: Vec<usize> = Vec::new();
